@@ -28,6 +28,11 @@ FLAVORS = {
     "tsan": ["-O1", "-fsanitize=thread"],
     "plain": ["-O1"],
 }
+# bin/coverage: VERIF_COV=1 adds gcov instrumentation to whatever flavor is built (into a scratch VERIF_BUILD_ROOT)
+COV = bool(os.environ.get("VERIF_COV"))
+if COV:
+    for _k in FLAVORS:
+        FLAVORS[_k] = [f for f in FLAVORS[_k] if f != "-O1"] + ["-O0", "--coverage", "-fprofile-update=atomic", "-DVERIF_COV"]
 HARNESS_SRCS = ["interpose.cpp", "sim.cpp", "vplugins.cpp", "main.cpp", "util.cpp",
                 "drv_pure.cpp", "drv_dropin.cpp", "drv_threads.cpp"]
 
